@@ -174,7 +174,9 @@ pub fn run_c09_b(ctx: &Ctx) -> Outcome {
         spec.nodes[0].features.no_snappy = no_snappy;
         if mixed {
             spec.nodes[0].features.metadata_id = true;
-            spec.nodes.push(NodeSpec::simple("dc1", "r2", vec![1000]));
+            // (each node owns half of the ring, so that token-aware requests reach both)
+            spec.nodes[0].tokens = vec![-(1i64 << 62)];
+            spec.nodes.push(NodeSpec::simple("dc1", "r2", vec![1i64 << 62]));
         }
         spec.keyspaces[0].tables.push(TableDef::new("cap", &[("op", "bigint")], &[("a", "int"), ("b", "text"), ("c", "bigint")]));
         let cluster = MockCluster::start(spec, cap.clone()).await;
@@ -368,6 +370,12 @@ pub fn run_c09_b(ctx: &Ctx) -> Outcome {
                 o.sample(json!({"ask": format!("{a:?}"), "frames": frames.iter().map(|f| format!("{f:?}").chars().take(200).collect::<String>()).collect::<Vec<_>>()}));
             }
         }
+        if mixed {
+            let on_plain_node = cluster.log().snapshot().iter().filter(|l| matches!(&l.ev, Ev::Recv { node: 1, request, .. } if matches!(&**request, Request::Execute { .. }))).count();
+            if on_plain_node > 0 {
+                o.class("mixed-cluster:EXECUTE-frames-on-the-node-without-the-extension");
+            }
+        }
         for v in cluster.log().violations() {
             o.node_violation("c09b", &v, json!({"part": "b", "world": wname}));
         }
@@ -381,7 +389,7 @@ pub fn run_c09_b(ctx: &Ctx) -> Outcome {
         cluster.shutdown();
     });
     }
-    for c in ["compression:none", "compression:lz4-negotiated", "compression:snappy-negotiated", "compression:lz4-asked-node-offers-snappy-only", "compression:snappy-asked-node-offers-none", "mixed-cluster:metadata-id-extension-on-one-node-only"] {
+    for c in ["compression:none", "compression:lz4-negotiated", "compression:snappy-negotiated", "compression:lz4-asked-node-offers-snappy-only", "compression:snappy-asked-node-offers-none", "mixed-cluster:metadata-id-extension-on-one-node-only", "mixed-cluster:EXECUTE-frames-on-the-node-without-the-extension"] {
         o.require_class(c);
     }
     for c in ["api:query_unpaged", "api:execute_unpaged", "api:batch", "api:query_single_page", "api:execute_single_page", "paging-state-returned-verbatim", "frame-re-sent-after-UNPREPARED"] {
